@@ -803,3 +803,139 @@ def split_at(stream: bytes, cuts):
             out.append(stream[prev:c])
             prev = c
     return out
+
+
+# ------------------------------------------------------------------ round 4: value classes, sizes, strict framing
+# Unicode value classes (dimension V).  Every text is SOH-free.  "fits" says whether the text is representable in
+# latin-1 AS GIVEN (code points < 256) - that alone decides whether a frame may carry it; what a normaliser,
+# case-folder or a different codec would turn it into is irrelevant to the wire.
+UNICODE_CLASSES = {
+    "latin1-precomposed": ["caf\xe9", "Z\xfcrich", "\xc5ngstr\xf6m", "\xb5s", "Stra\xdfe", "\xff\xfe"],
+    # base letter + combining mark whose COMPOSED form is a latin-1 character (the text itself is not latin-1)
+    "combining->latin1": ["cafe\u0301", "Zu\u0308rich", "A\u030a", "n\u0303", "c\u0327a", "e\u0301e\u0300"],
+    # combining sequences without a latin-1 composed form, a lone mark, two marks
+    "combining-other": ["x\u0301", "e\u0304", "\u0301", "a\u0328", "q\u0307\u0323"],
+    # singletons: canonically equivalent to an ASCII / latin-1 character
+    "singleton-decomposable": ["300\u212a", "5\u212b", "a\u037e", "\u0387", "\u1fef", "\u1ffd", "50\u2126"],
+    # compatibility characters (NFKC changes them; NFC does not)
+    "compatibility": ["\ufb01n", "\uff11\uff12", "\u2460", "x\u00b2", "\u2122", "\u33a1", "\u00bd"],
+    # case mapping specials (upper/lower/casefold change length or leave latin-1)
+    "case-special": ["\u0130stanbul", "\u0131", "\u017f", "\u1e9e", "\u01c5", "\u03a3\u03c2", "\xdf", "\xff"],
+    "surrogate": ["\ud800", "a\udfffb", "\ud83d\ude00"],
+    "nul-control": ["\x00", "a\x00b", "\x1c\x1d", "\x85", "\x7f", "\r\n", "\t"],
+    # utf-8 and latin-1 encodings differ in length (or latin-1 has none)
+    "width-differs": ["\xe9", "\xa0", "\xad", "\u20ac", "\u0100", "\U0001f600", "\u4e2d\u6587", "\u043f\u0440"],
+    "format-bidi": ["\u200b", "a\u200db", "\u2028", "\ufeff", "\u202eabc"],
+}
+
+
+def flatten_values(tree, top=True):
+    """(tag, value) of every plain entry the encoder puts on the wire (top-level 34/52/49/56 are replaced by it)"""
+    out = []
+    for n in tree:
+        if n[0] == "L":
+            if not (top and n[1] in SKIP_TAGS):
+                out.append((n[1], n[2]))
+        elif n[0] == "G":
+            for it in n[2]:
+                out += flatten_values(it, top=False)
+    return out
+
+
+def fits_latin1(s: str) -> bool:
+    return all(ord(ch) < 256 for ch in s)
+
+
+def gen_special_value(rng, surrogates=True):
+    """(class name, text) from UNICODE_CLASSES, optionally embedded in ASCII"""
+    cls = rng.choice(sorted(k for k in UNICODE_CLASSES if surrogates or k != "surrogate"))
+    t = rng.choice(UNICODE_CLASSES[cls])
+    r = rng.random()
+    if r < 0.3:
+        t = "ab" + t
+    elif r < 0.5:
+        t = t + "yz"
+    return cls, t
+
+
+def ref_parse_strict(raw: bytes):
+    """`ref_parse` plus what a peer that scans for fields relies on: BeginString(8), BodyLength(9), MsgType(35)
+    occur exactly once and no CheckSum(10) field occurs before the trailer - i.e. the frame ends at the FIRST
+    `SOH 10=` a parser meets."""
+    fields, why = ref_parse(raw)
+    if fields is None:
+        return None, why
+    tags = [t for t, _ in fields]
+    for t in ("8", "9", "35"):
+        if tags.count(t) != 1:
+            return None, "tag %s occurs %d times" % (t, tags.count(t))
+    if "10" in tags:
+        return None, "CheckSum(10) field inside the body"
+    for t in tags:
+        if not t or not all("0" <= ch <= "9" for ch in t):
+            return None, "field tag is not a decimal number"
+    return fields, None
+
+
+def split_stream(stream: bytes, begin=b"FIX.4.4"):
+    """what the peer does with the transport's byte stream: cut it into frames by BodyLength, check every frame
+    with `ref_parse_strict`.  Returns (frames, None) or (frames so far, reason)."""
+    frames, pos = [], 0
+    head = b"8=" + begin + b"\x019="
+    while pos < len(stream):
+        if not stream.startswith(head, pos):
+            return frames, "offset %d: no BeginString/BodyLength" % pos
+        p = pos + len(head)
+        q = stream.find(b"\x01", p)
+        if q < 0 or not stream[p:q].isdigit():
+            return frames, "offset %d: bad BodyLength" % pos
+        end = q + 1 + int(stream[p:q]) + 7
+        if end > len(stream):
+            return frames, "offset %d: frame runs past the end of the stream" % pos
+        fr = stream[pos:end]
+        fields, why = ref_parse_strict(fr)
+        if fields is None:
+            return frames, "offset %d: %s" % (pos, why)
+        frames.append(fr)
+        pos = end
+    return frames, None
+
+
+# frame sizes (dimension S): 4 KiB, the 64 KiB stream high-water mark +-1, twice that +-1, 1 MiB
+FRAME_SIZES = [4096, 65535, 65536, 65537, 70000, 131071, 131073, 1 << 20]
+
+
+def sized_case(spec):
+    """deterministic big message from a small JSON-able spec (so that a replay file stays small):
+      {"shape": "value", "frame_len": n, "mtype": "B", "tag": "58", "fill": "x", "tail": "", "seq": 7}
+          one value padded so that the WHOLE frame (computed by `ref_frame`, not by the codec) has n bytes
+      {"shape": "items", "group": "453", "n": 3000}     one repeating group with n one-member items
+      {"shape": "fields", "n": 2000}                     n distinct plain (user-defined) tags
+    returns the case tuple of gen_case: (mtype, tree, sender, target, next_out, raw, now)"""
+    now = spec.get("now", "20240101-00:00:00.000")
+    seq = spec.get("seq", 7)
+    sender, target = spec.get("sender", "SND"), spec.get("target", "TGT")
+    mtype = spec.get("mtype", "B")
+    shape = spec["shape"]
+    if shape == "value":
+        tag, fill, tail = spec.get("tag", "58"), spec.get("fill", "x"), spec.get("tail", "")
+        pre = [("L", "148", "headline")]
+
+        def flen(k):
+            fs = ["35=" + mtype, "49=" + sender, "56=" + target, "34=%d" % seq, "52=" + now, "148=headline",
+                  tag + "=" + fill * k + (tail if fits_latin1(tail) else "?" * len(tail))]
+            return len(ref_frame(fs))
+        k = max(0, spec["frame_len"] - flen(0))
+        for _ in range(4):   # BodyLength digits may change
+            k += spec["frame_len"] - flen(k)
+            k = max(0, k)
+        tree = pre + [("L", tag, fill * k + tail)]
+    elif shape == "items":
+        g = spec.get("group", "453")
+        first = table()[g][0]
+        tree = [("L", "55", "X"), ("G", g, [[("L", first, "P%d" % i)] for i in range(spec["n"])])]
+    elif shape == "fields":
+        tree = [("L", str(20000 + i), "v%d" % i) for i in range(spec["n"])]
+    else:
+        raise ValueError(spec)
+    return (mtype, tree, sender, target, seq, False, now)
